@@ -83,8 +83,11 @@ def gen_arith(tier, seed, universe=None, maxlen=3):
             lines += header(letters)
             lines.append(dset_line(10, xs))
             lines.append(dset_line(11, ys))
-            lines.append(arr_line(20, 10, xs, rand_vals(r, size(xs))))
-            lines.append(arr_line(21, 11, ys, rand_vals(r, size(ys), nonzero=True)))
+            # in one case out of five the operands have very different magnitudes (exact dyadic)
+            sx = Fraction(2) ** r.choice([-40, 30]) if r.random() < 0.2 else 1
+            sy = Fraction(2) ** r.choice([-45, 35]) if r.random() < 0.2 else 1
+            lines.append(arr_line(20, 10, xs, [v * sx for v in rand_vals(r, size(xs))]))
+            lines.append(arr_line(21, 11, ys, [v * sy for v in rand_vals(r, size(ys), nonzero=True)]))
             lines.append(arr_line(22, 11, ys, rand_vals(r, size(ys), small_nonneg_int=True)))
             lines.append(arr_line(23, 10, xs, rand_vals(r, size(xs), nonzero=True)))
             h = 30
@@ -130,6 +133,10 @@ def gen_reduce(tier, seed, universe=None, maxlen=3):
         lines.append(dset_line(10, xs))
         lines.append(arr_line(20, 10, xs, rand_vals(r, size(xs), nonzero=True)))
         lines.append(arr_line(24, 10, xs, [abs(v) for v in rand_vals(r, size(xs), nonzero=True)]))
+        # small and large magnitudes (exact dyadic): totals far from 1 must not be mistaken for zero
+        tiny = Fraction(1, 2 ** r.choice([34, 40, 60]))
+        lines.append(arr_line(25, 10, xs, [abs(v) * tiny for v in rand_vals(r, size(xs), nonzero=True)]))
+        lines.append(arr_line(26, 10, xs, [v * 2 ** 40 for v in rand_vals(r, size(xs), nonzero=True)]))
         h = 30
         form = r.randint(0, 2)
         # sum_to: every ordered subset of x's letters (requested order), three naming forms
@@ -175,6 +182,13 @@ def gen_reduce(tier, seed, universe=None, maxlen=3):
                 h += 2
         if other:
             lines.append(f"shares ${h} $24 {other[0]}"); h += 1
+        for k in range(len(xs) + 1):
+            for so in itertools.combinations(xs, k):
+                lines.append(f"shares ${h} $25 {''.join(so) or '-'}"); h += 1
+        lines.append(f"sumto ${h} $25"); h += 1
+        lines.append(f"sumto ${h} $26"); h += 1
+        for l in xs:
+            lines.append(f"cumsum ${h} $25 {l}"); h += 1
         stats["cases"] += 1
         stats["ops"] += h - 30
     return [ln.rstrip() for ln in lines], stats
